@@ -110,7 +110,7 @@ func genConc(prop string, seed uint64, run int, p concProfile, av avoid) *Case {
 		if p.nearlyFull > 0 {
 			nf = p.nearlyFull
 		}
-		if r.Chance(nf) && !p.replicas {
+		if r.Chance(nf) && (!p.replicas || NewRng(seed, uint64(run), 85).Chance(0.3)) {
 			// last block nearly full: concurrent inserts cross into a block that does not exist yet
 			b := blocks - 1
 			pf.KeepFull = []int{b}
